@@ -457,7 +457,7 @@ def run_near(block, ctx):
 # -- the quadrant seams of the two rotations, on the input and on the output side -----------------------------
 
 SEAM_PAIRS = [(0.0, 1.0), (0.0, -0.5), (-1.0, 2.0), (0.2884, 0.0), (5.0, -4.0), (0.0, 0.0001)]
-SEAM_DELTAS = [0.0, 1e-8, -1e-8, 1e-7, -1e-7, 1e-6, -1e-6, 3e-6, -3e-6, 2e-5, -2e-5, 1e-4, -1e-3]
+SEAM_DELTAS = [0.0, 2e-9, -3e-9, 5e-9, -5e-9, 1e-8, -1e-8, 1e-7, -1e-7, 1e-6, -1e-6, 3e-6, -3e-6, 2e-5, -2e-5, 1e-4, -1e-3]
 SEAM_LATS = [-60.0, 0.0, 30.0, 80.0]
 
 
